@@ -54,3 +54,29 @@ package interp
 //@   ensures cycle-is-an-error: old(interp.srcPkg[importPath]) == nil && old(interp.rdir[importPath]) ==> err != nil
 //@   ensures success-registers: err == nil ==> has(interp.srcPkg, importPath) && has(interp.pkgNames, importPath)
 //@   canary err == nil ==> name == ""
+
+// previousRoot (C16): the walk towards GOPATH/src looks for a vendor directory in EVERY ancestor of
+// the importing package's directory that lies below GOPATH/src, nearest first, and stops at the first
+// one found.  Paths are abstract: upN(p, k) is k-fold filepath.Dir, pathDepth the number of elements;
+// the file system is a fixed predicate isDirAt(fs, path).
+//@ pred noVendorAt(fsys, p, k): !isDirAt(fsys, pathJoin2(upN(p, k), vendor))
+//@ func previousRoot(filesystem, rootPath, root) (r, err)
+//@   props C16
+//@   opt safety = off
+//@   opt uf-lib = strings.TrimSuffix, strings.TrimPrefix
+//@   opt opaque-havoc = none
+//@   requires [assume] dir-laws-0: forallS(p, upN(p, 0) == p && pathDepth(p) >= 0)
+//@   requires [assume] dir-laws-step: forallS(p, forall(k, 0, pathDepth(p) + 1, upN(p, k+1) == filepath.Dir(upN(p, k))))
+//@   requires [assume] dir-laws-depth: forallS(p, pathDepth(p) > 0 ==> pathDepth(filepath.Dir(p)) == pathDepth(p) - 1)
+//@   requires [assume] dir-laws-top: forallS(p, pathDepth(p) == 0 ==> (p == "/" || p == "." || p == "") && (filepath.Dir(p) == "/" || filepath.Dir(p) == "."))
+//@   requires [assume] dir-laws-roots: pathDepth("/") == 0 && pathDepth(".") == 0 && pathDepth("") == 0
+//@   requires [assume] importer-below-top: pathDepth(filepath.Clean(rootPath)) > 0
+//@   loop 1
+//@   invariant [assume] gopath-src-is-an-ancestor: pathDepth(prefix) >= 1 && pathDepth(prefix) < pathDepth(rootPath) && prefix == upN(rootPath, pathDepth(rootPath) - pathDepth(prefix))
+//@   invariant none-found-yet: vendored == ""
+//@   invariant between-importer-and-gopath-src: pathDepth(parent) >= pathDepth(prefix) && pathDepth(parent) < pathDepth(rootPath)
+//@   invariant on-the-ancestor-chain: parent == upN(rootPath, pathDepth(rootPath) - pathDepth(parent))
+//@   invariant nearer-ancestors-have-no-vendor: forall(k, 1, pathDepth(rootPath) - pathDepth(parent), noVendorAt(filesystem, rootPath, k))
+//@   after nearest-vendor-or-none-below-gopath-src: (isDirAt(filesystem, pathJoin2(parent, vendor)) && parent == upN(rootPath, pathDepth(rootPath) - pathDepth(parent)) && forall(k, 1, pathDepth(rootPath) - pathDepth(parent), noVendorAt(filesystem, rootPath, k)) && vendored == strings.TrimPrefix(strings.TrimPrefix(parent, prefix), "/")) || (vendored == "" && forall(k, 1, pathDepth(rootPath) - pathDepth(prefix), noVendorAt(filesystem, rootPath, k)))
+//@   ensures [local:vendored] found-is-returned: vendored != "" ==> r == vendored && err == nil
+//@   canary [local:vendored] err == nil ==> vendored == ""
